@@ -40,7 +40,7 @@ is_6531_local (const char *start, const char *end)
     int qpair = 0;
     int quote = 0;
     int ch;
-    int prev = 0; /* previous index of non-ASCII character */
+    int prev = -1; /* byte index of the previous character, -1: there is none */
     utf8_decode_t u;
 
 
@@ -52,9 +52,17 @@ is_6531_local (const char *start, const char *end)
     EAV_VERIF_LOOP(is_6531_local)
     {
         EAV_VERIF_STEP(is_6531_local)
-        /* skip non-ASCII characters */
-        if (ch > 0x007f)
+        /* non-ASCII characters are atext / qtextSMTP */
+        if (ch > 0x007f) {
+            /* ... but not quoted-pairSMTP (%d92 %d32-126) */
+            if (qpair)
+                return inverse(EEAV_LPART_SPECIAL);
+            /* a quoted-string is a whole word: only '.' may follow it */
+            if (!quote && prev >= 0 && start[prev] == '"')
+                return inverse(EEAV_LPART_MISPLACED_QUOTE);
+            prev = utf8_decode_at_byte (&u);
             continue;
+        }
 
         /* rfc5321 does not allow any CTRL chars */
 #ifndef RFC6531_FOLLOW_RFC5322
@@ -72,12 +80,15 @@ is_6531_local (const char *start, const char *end)
             if (!qpair && ISCNTRL(ch))
                 return inverse(EEAV_LPART_CTRL_CHAR);
 #endif
+            /* a quoted-string is a whole word: only '.' may follow it */
+            if (prev >= 0 && start[prev] == '"' && ch != '.')
+                return inverse(EEAV_LPART_MISPLACED_QUOTE);
             switch (ch) {
             case '"': {
                 /* quote-strings are allowed at the start
                  * or with preciding '.' only
                  */
-                if (prev == 0 || start[prev] == '.')
+                if (prev < 0 || start[prev] == '.')
                     quote = 1;
                 else
                     return inverse(EEAV_LPART_MISPLACED_QUOTE);
